@@ -151,11 +151,19 @@ impl Uplinks {
             write_queue,
             ..
         } = self;
-        if let Some((mut writer, mut buffer)) = writer.take() {
-            let action = write_to_buffer(event, &mut buffer)?;
-            let lane_name = registry.name_for(lane_id).expect(UNREGISTERED_LANE);
-            writer.update_lane(lane_name);
-            Ok(Some(WriteTask::new(writer, buffer, action)))
+        if let Some((mut sender, mut buffer)) = writer.take() {
+            match write_to_buffer(event, &mut buffer) {
+                Ok(action) => {
+                    let lane_name = registry.name_for(lane_id).expect(UNREGISTERED_LANE);
+                    sender.update_lane(lane_name);
+                    Ok(Some(WriteTask::new(sender, buffer, action)))
+                }
+                Err(e) => {
+                    //The event was rejected so the writer has not been used and must be put back.
+                    *writer = Some((sender, buffer));
+                    Err(e)
+                }
+            }
         } else {
             match event {
                 UplinkResponse::Value(body) => {
